@@ -45,7 +45,7 @@ fn gen_sref(rng: &mut Rng) -> SRef {
 fn gen_cmd(rng: &mut Rng) -> Cmd {
     match rng.weighted(&[10, 8, 4, 4, 22, 8, 8, 8, 10, 3, 3, 6, 6]) {
         0 => Cmd::Open {
-            variant: if rng.chance(3, 5) { 0 } else { 1 + rng.below(15) as u8 },
+            variant: if rng.chance(3, 5) { 0 } else { *rng.pick(&[1u8, 2, 3, 4, 5, 6, 7, 8, 9, 10, 11, 12, 13, 14, 15, 17, 17, 18, 18]) },
             sort: rng.chance(1, 4),
             collect: (*rng.pick(&["true", "true", "true", "\"all\"", "false", "\"none\"", "\"one_pass_streams\""])).to_string(),
         },
@@ -73,7 +73,7 @@ fn gen_cmd(rng: &mut Rng) -> Cmd {
                 _ => Some("{}".into()),
             },
         ),
-        9 => Cmd::PluginCmd((*rng.pick(&["", "{", "[]", r#"{"cmd":"save"}"#, r#"{"cmd":"save","name":"FileTransfer","params":{"saveAs":"/nonexistent/x"},"cmdCtx":{"save":{"idx":0}}}"#, r#"{"cmd":"x","name":"nope"}"#])).to_string()),
+        9 => Cmd::PluginCmd((*rng.pick(&["", "{", "[]", r#"{"cmd":"save"}"#, r#"{"cmd":"save","name":"FileTransfer","params":{"saveAs":"/nonexistent/x"},"cmdCtx":{"save":{"idx":0}}}"#, r#"{"cmd":"x","name":"nope"}"#, r#"{"cmd":"x","name":"Rewrite"}"#, r#"{"cmd":"save","name":"FileTransfer","params":{"saveAs":"/nonexistent/y"},"cmdCtx":{"save":{"idx":0}}}"#, r#"{"name":"Rewrite"}"#])).to_string()),
         10 => Cmd::Fs((*rng.pick(&["", "{", "7", r#"{"cmd":"stat","path":"/"}"#, r#"{"cmd":"readDirectory","path":"/nonexistent"}"#, r#"{"cmd":"bogus"}"#, r#"{"path":"/"}"#, r#"{"cmd":"stat","path":"@ROOT@/corrupt.zip!/x"}"#, r#"{"cmd":"readDirectory","path":"@ROOT@/corrupt.zip!/x"}"#, r#"{"cmd":"readDirectory","path":"@ROOT@/corrupt.zip!/"}"#, r#"{"cmd":"stat","path":"@ROOT@/trace.dlt!/x"}"#, r#"{"cmd":"readDirectory","path":"@ROOT@"}"#])).to_string()),
         11 => Cmd::Raw((*rng.pick(&["", " ", "bogus", "open", "stop", "stream", "query", "stream_search", "stream_change_window", "OPEN {}", "close now", "\u{1F600}", "stream_binary_search 1", "resume x", "plugin_cmd", "fs"])).to_string()),
         _ => {
@@ -253,7 +253,7 @@ pub fn check_transcript(s: &Session, t: &Transcript, ctx: &mut Ctx) -> Result<()
                 // ---- session model
                 let expect: Option<bool> = match cmd {
                     Cmd::Open { variant, .. } => match *variant {
-                        0 | 10 | 11 | 16 => Some(!open),
+                        0 | 10 | 11 | 16 | 17 | 18 => Some(!open),
                         // other input formats / mixed inputs: accepted or refused, but answered; never while a file is open
                         12..=15 => if open { Some(false) } else { None },
                         _ => Some(false),
@@ -372,6 +372,7 @@ pub fn check_transcript(s: &Session, t: &Transcript, ctx: &mut Ctx) -> Result<()
                                 14 => ctx.probe("opens_mixed_dlt_logcat"),
                                 15 => ctx.probe("opens_genlog_file"),
                                 16 => ctx.probe("opens_zip_archive"),
+                                17 | 18 => ctx.probe("opens_with_same_named_plugins"),
                                 _ => {}
                             }
                             open = true;
@@ -528,6 +529,6 @@ impl Check for C15 {
         vec!["connection loop replica verif_serve (H2)", "in-memory duplex transport (SimStream)", "simulated clock / recv_timeout / sleep (seam)", "client (command generator + session model)"]
     }
     fn required_reach() -> Vec<&'static str> {
-        vec!["replies_ok", "replies_err", "replies_unknown_command", "opens", "closes", "streams_created", "window_changes", "try_send_full", "recv_timeout_timeout", "short_socket_reads", "opens_zip_archive", "opens_two_dlt_files", "opens_logcat_file", "opens_asc_file", "opens_genlog_file", "opens_mixed_dlt_logcat"]
+        vec!["replies_ok", "replies_err", "replies_unknown_command", "opens", "closes", "streams_created", "window_changes", "try_send_full", "recv_timeout_timeout", "short_socket_reads", "opens_zip_archive", "opens_with_same_named_plugins", "opens_two_dlt_files", "opens_logcat_file", "opens_asc_file", "opens_genlog_file", "opens_mixed_dlt_logcat"]
     }
 }
